@@ -60,7 +60,7 @@ Print Assumptions C20_decode_copies.
 
 (* ... and it is load-bearing: with a decoder that aliased the receive buffer, the UDP handler would read memory that
    the read loop is overwriting with the next datagram *)
-Theorem C20_decode_alias_refuted : exists s, reach P_udp_alias s /\ viol s = 2.
+Theorem C20_decode_alias_refuted : exists s, reach Pown_udp_alias s /\ viol s = 2.
 Proof. exact udp_alias_refuted. Qed.
 Print Assumptions C20_decode_alias_refuted.
 
@@ -68,12 +68,12 @@ Print Assumptions C20_decode_alias_refuted.
    when packing the response fails.  C09_pack_total (packing a well-formed message into a Len-sized buffer never
    fails) excludes that: for every well-formed response the handler protocol is violation-free in every interleaving. *)
 Theorem C20_gnet_fallback_unreachable : forall (resp : msg) (size : nat), wf_msg resp ->
-  forall s, reach (P_gnet (is_ok (pack_msg (msg_len resp) true size resp))) s -> viol s = 0.
+  forall s, reach (Pown_gnet (is_ok (pack_msg (msg_len resp) true size resp))) s -> viol s = 0.
 Proof. exact (gnet_fallback_unreachable C09_pack_total). Qed.
 Print Assumptions C20_gnet_fallback_unreachable.
 
 (* the link is needed: if packing could fail, the released query would be read *)
-Theorem C20_gnet_pack_failure_refuted : exists s, reach (P_gnet false) s /\ viol s = 1.
+Theorem C20_gnet_pack_failure_refuted : exists s, reach (Pown_gnet false) s /\ viol s = 1.
 Proof. exact gnet_pack_failure_reads_released. Qed.
 Print Assumptions C20_gnet_pack_failure_refuted.
 
@@ -82,26 +82,26 @@ Print Assumptions C20_gnet_pack_failure_refuted.
      deferred ReleaseBuf(payload);  [another request takes the buffer;]  worker: Write(payload)
    reaches a use-after-release (without the bracketed step) / an access to another owner's buffer (with it). *)
 Theorem C20_reuse_payload_refuted :
-  (exists s, run P_reuse_pinned (init P_reuse_pinned) d14_schedule = Some s /\ reach P_reuse_pinned s /\ viol s = 1) /\
-  (exists s, run P_reuse_pinned (init P_reuse_pinned) d14_schedule_env = Some s /\ reach P_reuse_pinned s /\ viol s = 2).
+  (exists s, own_run Pown_reuse_pinned (own_init Pown_reuse_pinned) d14_schedule = Some s /\ reach Pown_reuse_pinned s /\ viol s = 1) /\
+  (exists s, own_run Pown_reuse_pinned (own_init Pown_reuse_pinned) d14_schedule_env = Some s /\ reach Pown_reuse_pinned s /\ viol s = 2).
 Proof. exact reuse_pinned_refuted. Qed.
 Print Assumptions C20_reuse_payload_refuted.
 
 (* after the fix (the worker owns a private copy that it releases itself) both invariants hold in every interleaving *)
-Theorem C20_reuse_payload_fixed : forall s, reach P_reuse_fixed s -> viol s = 0.
+Theorem C20_reuse_payload_fixed : forall s, reach Pown_reuse_fixed s -> viol s = 0.
 Proof. exact reuse_fixed_safe. Qed.
 Print Assumptions C20_reuse_payload_fixed.
 
 (* the other two mechanisms named by the property are load-bearing as well *)
-Theorem C20_cache_recheck_needed_refuted : exists s, reach (P_cache false) s /\ viol s = 4.
+Theorem C20_cache_recheck_needed_refuted : exists s, reach (Pown_cache false) s /\ viol s = 4.
 Proof. exact cache_recheck_needed. Qed.
 Print Assumptions C20_cache_recheck_needed_refuted.
 
-Theorem C20_pipeline_double_release_refuted : exists s, reach (P_pipeline true) s /\ viol s = 3.
+Theorem C20_pipeline_double_release_refuted : exists s, reach (Pown_pipeline true) s /\ viol s = 3.
 Proof. exact pipeline_double_release_refuted. Qed.
 Print Assumptions C20_pipeline_double_release_refuted.
 
-(* non-vacuity: the protocols really run to completion (complete runs exist, with every object acquired, used, handed
+(* non-vacuity: the protocols really own_run to completion (complete runs exist, with every object acquired, used, handed
    over and released), the state spaces are not trivial, and the certificate check does reject the broken variants *)
 Example C20_example_runs :
   own_verdict 1 0 = Some 0 /\ own_verdict 1 1 = Some 0 /\ own_verdict 1 3 = Some 0 /\
@@ -111,6 +111,6 @@ Proof. vm_compute. repeat split. Qed.
 
 Example C20_example_state_spaces :
   map (fun P => 100 <? length (states P)) protocols = [true; true; true; true; true; true; true; true] /\
-  check P_reuse_pinned (states P_reuse_pinned) = false /\ check P_udp_alias (states P_udp_alias) = false /\
-  check (P_gnet false) (states (P_gnet false)) = false /\ check (P_cache false) (states (P_cache false)) = false.
+  check Pown_reuse_pinned (states Pown_reuse_pinned) = false /\ check Pown_udp_alias (states Pown_udp_alias) = false /\
+  check (Pown_gnet false) (states (Pown_gnet false)) = false /\ check (Pown_cache false) (states (Pown_cache false)) = false.
 Proof. vm_compute. repeat split. Qed.
